@@ -131,7 +131,7 @@ def c03(res, tier, deadline):
 @check("C04")
 def c04(res, tier, deadline):
     res.rule = ("every poset on n classes x every assignment of parameter classes to a method set "
-                "(U=unary, B=binary, T=ternary) x presentations {complete lists, direct bases only} "
+                "(U=unary, B=binary, T=ternary) x presentations {complete lists, direct bases only, one record per (class, direct base)} "
                 "x {label, reverse} record order; per registry: slot range / disjointness / exact "
                 "(method,parameter) per cell from the compiler object, then a bounds-checked "
                 "re-implementation of the table walk for every legal tuple compared with the real "
@@ -140,13 +140,15 @@ def c04(res, tier, deadline):
     res.assumptions = COMMON_ASSUMPTIONS
     pres = "pres=full|direct,rev=0|1"
     if tier == "quick":
-        runs = [Run("rel", "slots", "n=1-5,set=UUB,d=1,%s;n=1-4,set=UBT,d=1,%s" % (pres, pres)),
+        runs = [Run("rel", "slots", "n=1-5,set=UUB,d=1,%s;n=1-4,set=UBT,d=1,%s;"
+                    "n=1-5,set=UUB,d=1,pres=split,rev=0|1" % (pres, pres)),
                 Run("rel", "slots", "n=1-4,set=UUB,d=1,%s;n=1-4,set=UBT,d=1,pres=direct" % pres,
                     variant="asan"),
                 Run("dbg", "slots", "n=1-4,set=UUB,d=1,%s" % pres),
                 Run("int", "slots", "n=1-4,set=UUB,d=1,%s" % pres)]
     else:
-        runs = [Run("rel", "slots", "n=1-5,set=UUB,d=1,%s;n=1-5,set=UBT,d=1,pres=full|direct;"
+        runs = [Run("rel", "slots", "n=1-5,set=UUB,d=1,pres=split,rev=0|1;n=1-5,set=UBT,d=1,pres=split", label="rel/plain/slots-split"),
+                Run("rel", "slots", "n=1-5,set=UUB,d=1,%s;n=1-5,set=UBT,d=1,pres=full|direct;"
                     "n=6,set=UB,d=1,%s;n=1-4,set=UBQ,d=1,pres=direct" % (pres, pres)),
                 Run("rel", "slots", "n=1-5,set=UUB,d=1,%s;n=1-4,set=UBT,d=1,%s" % (pres, pres),
                     variant="asan"),
